@@ -879,7 +879,19 @@ func genLease4(r *Rng) (leaseScenario, []string) {
 				ayi = net.IP{10, 0, 0, byte(r.Range(51, 250))}
 				tags = append(tags, "lease-ack-other-address")
 			}
-			sc.ack = pktSemi(leasePkt4(r, 5, id, aform, ayi, leaseXid, hw, 2))
+			ackPkt := leasePkt4(r, 5, id, aform, ayi, leaseXid, hw, 2)
+			if r.Chance(1, 5) {
+				// a server that echoes the client's address in ciaddr (RFC 2131 table 3 allows
+				// it in an ACK) - with yiaddr set as usual, or left at 0.0.0.0: what the lease
+				// binds is yiaddr either way (seeded change C13-16: renewals and releases
+				// falling back to the ACK's ciaddr)
+				ackPkt.ClientIPAddr = net.IP{10, 0, 0, byte(r.Range(90, 99))}
+				if r.Bool() {
+					ackPkt.YourIPAddr = net.IP{0, 0, 0, 0}
+				}
+				tags = append(tags, "lease-ack-ciaddr-set")
+			}
+			sc.ack = pktSemi(ackPkt)
 			tags = append(tags, "lease-ack-"+leaseSidFormNames[aform])
 		}
 		if sc.kind != "release" {
